@@ -17,11 +17,11 @@ def run(tier):
     to = 200 if q else 1200
     jobs = [chrun.Job(M, 'gt_step', to, subst={'PART = -1': f'PART = {p}', 'NLEAF = 4': f'NLEAF = {nleaf}'},
                       label=f'gt_step[{p}]', twin=(p % 4 == 0)) for p in range(nleaf * 4)]
-    navsub = {} if q else {'NKIND = 4': 'NKIND = 5', 'NLEAF = 4': 'NLEAF = 5'}
+    navsub = {} if q else {'NKIND = 3': 'NKIND = 5', 'NLEAF = 4': 'NLEAF = 5'}
     jobs += [chrun.Job(M, 'nav', to, subst=dict({'PART = -1': f'PART = {p}'}, **navsub), label=f'nav[skip_ws={p // 4},skip_cm={p // 2 % 2},comment-group={p % 2}]', twin=(p == 7)) for p in range(8)]
     jobs += [chrun.Job(M, 'ancestry', to, subst={'PART = -1': f'PART = {p}'}, label=f'ancestry[node {p}]', twin=(p == 1)) for p in range(7)]
     jobs += [chrun.Job(M, 'at_offset', to, subst={} if q else {'LENMAX = 2': 'LENMAX = 3'})]
-    nkk, ntk = (6, 5) if q else (9, 5)
+    nkk, ntk = (5, 5) if q else (9, 5)
     jobs += [chrun.Job(os.path.join(ROOT, 'vf/ch/pipeline.py'), 'ktree', 300 if q else 2400, subst={'PART = -1': f'PART = {k}', 'NKK = 6': f'NKK = {nkk}', 'NTK = 5': f'NTK = {ntk}'},
                        label=f'ktree[first kind {k}]', twin=(k == 0)) for k in range(nkk)]
     nlexeme, nlex = (16, 3) if q else (32, 3)
